@@ -122,7 +122,7 @@ func (c *Ctx) ruleDescend(rule string) {
 				cnt++
 				k := key(rule, c.M.Key(f), sprintf("schema-mode accept #%d has compared the children", cnt))
 				enteredBefore := false
-				for _, cond := range core.CondsAt(r.Block()) {
+				for _, cond := range r.Conds() {
 					if ex, ok := cond.V.(*ssa.Extract); ok && ex.Index == 1 && cond.True {
 						if lk, ok := ex.Tuple.(*ssa.Lookup); ok && lk.CommaOk {
 							if _, isParam := lk.X.(*ssa.Parameter); isParam {
@@ -133,7 +133,7 @@ func (c *Ctx) ruleDescend(rule string) {
 				}
 				if enteredBefore {
 					c.R.Ok(rule, k, c.M.InstrPos(r), "accepting return of a composite schema's compatibility check", "taken only where the pair (receiver, other) is found in the set of pairs the comparison has entered: its children are being, or have been, compared where it was entered (R-TERM checks that the set is handed round the whole comparison)")
-				} else if hold[r.Block()] || gen(r.Block()) {
+				} else if hold[r.Key()] || gen(r.Block()) {
 					c.R.Ok(rule, k, c.M.InstrPos(r), "accepting return of a composite schema's compatibility check", "every path to it passes a ValidateCompatibility call on a child (or the loop that makes it for every child)")
 				} else {
 					c.R.Bad(rule, k, c.M.InstrPos(r), "a composite schema accepts another schema without comparing the children",
